@@ -1,7 +1,6 @@
 package main
 
 import (
-	"context"
 	"encoding/json"
 	"flag"
 	"fmt"
@@ -246,61 +245,31 @@ func cmdCheck(args []string) int {
 				}
 				var r *Result
 				q := j.unit.VC.Query(j.obl, p.preludeFor(j.unit.Pkg), j.split, true)
-				// relevance slicing: queries with only the assumptions that share constants with the goal
-				// are tried alongside the full query; only `unsat` answers of a sliced query are conclusive.
-				// Both run concurrently so that a loaded machine does not push a cheap proof past a
-				// wall-clock budget and into the (much harder) unsliced query alone.
+				// relevance slicing: try with only the assumptions that share constants with the goal; only
+				// `unsat` answers of a sliced query are conclusive.  The budgets are generous because a
+				// sliced proof is usually seconds while the unsliced query can be minutes; solver time
+				// limits start when the process obtains a machine-wide slot, so load does not eat them.
 				if !j.obl.Cover && j.obl.nAssume > 12 && !*noSlice {
-					ctx, cancelAll := context.WithCancel(context.Background())
-					type out struct {
-						r      *Result
-						sliced bool
-					}
-					ch := make(chan out, 2)
-					go func() {
-						for depth := 0; depth <= 2; depth++ {
-							if ctx.Err() != nil {
-								break
-							}
-							var keep map[int]bool
-							if depth == 0 {
-								keep = j.unit.VC.LightSlice(j.obl, 20000)
-							} else {
-								keep = j.unit.VC.Slice(j.obl, depth)
-							}
-							if len(keep) >= j.obl.nAssume {
-								break
-							}
-							qs := j.unit.VC.QuerySliced(j.obl, p.preludeFor(j.unit.Pkg), j.split, false, keep)
-							st := 20 * (depth + 1)
-							if st > to {
-								st = to
-							}
-							rs := solveCtx(ctx, qs, workDir, tag+".slice", st, seed)
-							if rs.Status == "unsat" {
-								rs.Solver += fmt.Sprintf("(slice%d:%d/%d)", depth, len(keep), j.obl.nAssume)
-								ch <- out{rs, true}
-								return
-							}
+					for depth := 0; depth <= 2 && r == nil; depth++ {
+						var keep map[int]bool
+						if depth == 0 {
+							keep = j.unit.VC.LightSlice(j.obl, 20000)
+						} else {
+							keep = j.unit.VC.Slice(j.obl, depth)
 						}
-						ch <- out{nil, true}
-					}()
-					go func() { ch <- out{solveCtx(ctx, q, workDir, tag, to, seed), false} }()
-					var full *Result
-					for k := 0; k < 2 && r == nil; k++ {
-						o := <-ch
-						if o.sliced && o.r != nil {
-							r = o.r
-						} else if !o.sliced {
-							full = o.r
-							if full.Status == "unsat" || full.Status == "sat" || full.Status == "error" {
-								r = full
-							}
+						if len(keep) >= j.obl.nAssume {
+							break
 						}
-					}
-					cancelAll()
-					if r == nil {
-						r = full
+						qs := j.unit.VC.QuerySliced(j.obl, p.preludeFor(j.unit.Pkg), j.split, false, keep)
+						st := 20 * (depth + 1)
+						if st > to {
+							st = to
+						}
+						rs := solve(qs, workDir, tag+".slice", st, seed)
+						if rs.Status == "unsat" {
+							rs.Solver += fmt.Sprintf("(slice%d:%d/%d)", depth, len(keep), j.obl.nAssume)
+							r = rs
+						}
 					}
 				}
 				if r == nil {
